@@ -4,6 +4,20 @@ TRUSTED = ("CPython ast/symtable; the analyzer's CFG construction and resolution
            "self-test); reference tables written from the property statement; no value-level semantics are decided")
 
 CLAIMS = {
+    "C04": {
+        "text": "Sibling-agreement / must-pass / error-discipline analysis of the conformance checks in the current "
+                "source: every function that picks a response definition from the received status goes through the "
+                "wildcard-aware expansion (explicit > range > default); the response schema is selected with the "
+                "response's content type; every path from a recorded failure to a normal return raises it; run_checks "
+                "converts Failure / AssertionError / FailureGroup; the four checks are registered, skip only for foreign "
+                "schemas / unspecified methods, and their JSON / validation handlers append failures; the converter "
+                "rewrites nested containers only on a deep copy and strips writeOnly for responses / readOnly for "
+                "requests. Not decided: verdict equivalence with an independent oracle over (definition x response), "
+                "JSON Schema semantics of jsonschema itself, header coercion values.",
+        "design_ref": "DESIGN.md §4 C04",
+        "note": TRUSTED,
+        "technique": "sibling agreement of status/media-type lookups, CFG must-pass from failure collection to raise, ownership (deep copy before in-place rewrite)",
+    },
     "C05": {
         "text": "Error-discipline analysis on all paths of the current source: every may-raise statement of each engine "
                 "thread target lies in a catch-all region whose handler emits NonFatalError (lexical coverage + CFG "
